@@ -328,8 +328,153 @@ func ruleLibraryCalls(c *Ctx, rule string) {
 // ---------------------------------------------------------------------------------------------
 // Ownership: who may write program-owned memory
 
+// programOwned computes the set of reference-typed SSA values that may point into memory owned by the compiled program
+// (objects of types declared in bytecode/ast, *Vore), propagated through loads, slicing, phis, calls and returns of the
+// repository functions in `fns`.
+func (c *Ctx) programOwned(fns []*ssa.Function) map[ssa.Value]string {
+	progPkgs := []string{modRoot + "/libvore/bytecode", modRoot + "/libvore/ast"}
+	isProgType := func(t types.Type) bool {
+		for _, e := range elemTypes(t) {
+			if declaredIn(e, progPkgs...) {
+				return true
+			}
+			if n, ok := e.(*types.Named); ok && n.Obj().Name() == "Vore" && n.Obj().Pkg() != nil && n.Obj().Pkg().Path() == modRoot+"/libvore" {
+				return true
+			}
+		}
+		return false
+	}
+	po := map[ssa.Value]string{}
+	inSet := map[*ssa.Function]bool{}
+	for _, f := range fns {
+		inSet[f] = true
+	}
+	derives := func(v ssa.Value) (string, bool) {
+		ch := traceAddr(v)
+		if ch.Root != nil {
+			if why, ok := po[ch.Root]; ok {
+				return why, true
+			}
+		}
+		for _, s := range ch.Steps {
+			if s.RefVal != nil {
+				if why, ok := po[s.RefVal]; ok {
+					return why, true
+				}
+			}
+			if s.Kind == "field" && s.Struct != nil && isProgType(s.Struct) {
+				return "field " + s.Field + " of " + types.TypeString(s.Struct, shortQual), true
+			}
+		}
+		return "", false
+	}
+	changed := true
+	mark := func(v ssa.Value, why string) {
+		if _, ok := po[v]; !ok && isRefType(v.Type()) {
+			po[v] = why
+			changed = true
+		}
+	}
+	for iter := 0; changed && iter < 30; iter++ {
+		changed = false
+		for _, fn := range fns {
+			for _, p := range fn.Params {
+				if isRefType(p.Type()) && isProgType(p.Type()) {
+					mark(p, "parameter "+p.Name()+" of "+fnName(fn)+" has a program type")
+				}
+			}
+			instrsOf(fn, func(in ssa.Instruction) {
+				v, isVal := in.(ssa.Value)
+				if isVal && isRefType(v.Type()) {
+					switch x := in.(type) {
+					case *ssa.UnOp, *ssa.Field, *ssa.Index, *ssa.Slice, *ssa.ChangeType, *ssa.Lookup, *ssa.FieldAddr, *ssa.IndexAddr:
+						if _, isAlloc := traceAddr(v).Root.(*ssa.Alloc); isAlloc && traceAddr(v).local() {
+							// a purely local chain
+						} else if why, ok := derives(v); ok {
+							mark(v, why)
+						}
+						// values loaded from a local variable that holds a program-owned reference
+						if u, ok := x.(*ssa.UnOp); ok && u.Op == token.MUL {
+							if a, ok := traceAddr(u.X).Root.(*ssa.Alloc); ok {
+								for _, ref := range *a.Referrers() {
+									if st, ok := ref.(*ssa.Store); ok {
+										if why, ok := po[st.Val]; ok {
+											mark(v, why)
+										}
+									}
+								}
+							}
+						}
+					case *ssa.Phi:
+						for _, e := range x.Edges {
+							if why, ok := po[e]; ok {
+								mark(v, why)
+							}
+						}
+					case *ssa.TypeAssert:
+						if why, ok := po[x.X]; ok {
+							mark(v, why)
+						}
+					case *ssa.MakeInterface:
+						if why, ok := po[x.X]; ok {
+							mark(v, why)
+						}
+					case *ssa.ChangeInterface:
+						if why, ok := po[x.X]; ok {
+							mark(v, why)
+						}
+					case *ssa.Extract:
+						if why, ok := po[x.Tuple]; ok {
+							mark(v, why)
+						}
+					}
+				}
+				if call, ok := in.(ssa.CallInstruction); ok {
+					cc := call.Common()
+					var callees []*ssa.Function
+					if sc := cc.StaticCallee(); sc != nil {
+						callees = []*ssa.Function{sc}
+					} else {
+						callees = c.calleesOf(call)
+					}
+					for _, callee := range callees {
+						if !inSet[callee] {
+							continue
+						}
+						args := cc.Args
+						params := callee.Params
+						if cc.IsInvoke() {
+							args = append([]ssa.Value{cc.Value}, args...)
+						}
+						for i, a := range args {
+							if i < len(params) {
+								if why, ok := po[a]; ok {
+									mark(params[i], why+" (passed by "+fnName(fn)+")")
+								}
+							}
+						}
+						// results
+						if cv, ok := call.(ssa.Value); ok {
+							instrsOf(callee, func(ci ssa.Instruction) {
+								if ret, ok := ci.(*ssa.Return); ok {
+									for _, rv := range ret.Results {
+										if why, ok := po[rv]; ok {
+											mark(cv, why)
+										}
+									}
+								}
+							})
+						}
+					}
+				}
+			})
+		}
+	}
+	return po
+}
+
 // ruleProgramReadOnly implements C13.R3 / C19.R2+R3: at run time no store goes to memory owned by the compiled
-// program (types declared in bytecode or ast, or libvore.Vore), and nothing allocated during a call is stored into it.
+// program (types declared in bytecode or ast, or libvore.Vore), directly or through a reference handed down a call chain.
 func ruleProgramReadOnly(c *Ctx, rule string) {
 	r := c.R
 	roots := c.runRoots()
@@ -339,22 +484,16 @@ func ruleProgramReadOnly(c *Ctx, rule string) {
 	}
 	roots = append(roots, c.Method("libvore", "Vore", "Run"), c.Method("libvore", "Vore", "RunFiles"))
 	reach := c.Reachable(roots...)
-	progPkgs := []string{modRoot + "/libvore/bytecode", modRoot + "/libvore/ast"}
-	isProgType := func(t types.Type) bool {
-		if declaredIn(t, progPkgs...) {
-			return true
-		}
-		if n, ok := t.(*types.Named); ok && n.Obj().Name() == "Vore" && n.Obj().Pkg() != nil && n.Obj().Pkg().Path() == modRoot+"/libvore" {
-			return true
-		}
-		return false
-	}
-	nstores, nfn := 0, 0
+	var fns []*ssa.Function
 	for _, fn := range sortedFns(reach) {
-		if !c.isRepoFn(fn) {
-			continue
+		if c.isRepoFn(fn) {
+			fns = append(fns, fn)
 		}
-		nfn++
+	}
+	po := c.programOwned(fns)
+	r.Stats["program_owned_reference_values"] = len(po)
+	nstores := 0
+	for _, fn := range fns {
 		var viol []string
 		var firstPos token.Pos
 		instrsOf(fn, func(in ssa.Instruction) {
@@ -373,24 +512,34 @@ func ruleProgramReadOnly(c *Ctx, rule string) {
 			if ch.local() {
 				return
 			}
-			for _, t := range ch.typesOnChain() {
-				if isProgType(t) {
-					viol = append(viol, fmt.Sprintf("%s through %s (program-owned type %s) [%s]", kind, ch.String(), types.TypeString(t, shortQual), c.pos(in.Pos())))
-					if firstPos == token.NoPos {
-						firstPos = in.Pos()
+			why := ""
+			if w, ok := po[ch.Root]; ok {
+				why = w
+			}
+			for _, s := range ch.Steps {
+				if s.RefVal != nil {
+					if w, ok := po[s.RefVal]; ok && why == "" {
+						why = w
 					}
-					return
 				}
+			}
+			if why == "" {
+				return
+			}
+			// a store into the method's own by-value copy is local even when the copy came from the program
+			viol = append(viol, fmt.Sprintf("%s through %s, which points into the compiled program (%s) [%s]", kind, ch.String(), why, c.pos(in.Pos())))
+			if firstPos == token.NoPos {
+				firstPos = in.Pos()
 			}
 		})
 		if len(viol) > 0 {
 			r.Ob(rule, "run-time writer "+fnName(fn), c.pos(firstPos)).Bad("code reachable from Run/RunFiles writes memory owned by the compiled program: " + strings.Join(viol, "; "))
 		}
 	}
-	r.Stats["run_reachable_repo_functions"] = nfn
+	r.Stats["run_reachable_repo_functions"] = len(fns)
 	r.Stats["run_reachable_stores"] = nstores
 	r.Ob(rule, "stores reachable from Run/RunFiles examined", "").OKnt(
-		fmt.Sprintf("%d store/map-update instructions in %d repository functions reachable from engine.Run/RunFiles/(*Vore).Run/RunFiles; every one writes a local allocation or an object of a type owned by engine/files/ds, except those reported separately", nstores, nfn))
+		fmt.Sprintf("%d store/map-update instructions in %d repository functions reachable from engine.Run/RunFiles/(*Vore).Run/RunFiles, %d reference values may point into the compiled program; no store goes through any of them (violations, if any, are reported separately)", nstores, len(fns), len(po)))
 }
 
 func shortQual(p *types.Package) string { return p.Name() }
@@ -631,4 +780,121 @@ func (c *Ctx) onlyThrough(roots []*ssa.Function, through, target *ssa.Function) 
 		}
 	}
 	return true
+}
+
+// ruleCommandScope implements C13.R4: every GenState field that is written while search instructions are generated is
+// re-created by each command generator before it generates anything, so that nothing leaks from one command into the next.
+func ruleCommandScope(c *Ctx, rule string) {
+	r := c.R
+	gsi := c.Fn("bytecode", "generateSearchInstruction")
+	genState := c.NamedType("bytecode", "GenState")
+	if gsi == nil || genState == nil {
+		r.Ob(rule, "anchor bytecode.generateSearchInstruction/GenState", "").Und("not found")
+		return
+	}
+	under := c.Reachable(gsi)
+	fieldOf := func(addr ssa.Value) (string, bool) {
+		ch := traceAddr(addr)
+		for _, s := range ch.Steps {
+			if s.Kind == "field" && s.Struct != nil && types.Identical(s.Struct, genState) {
+				return s.Field, true
+			}
+		}
+		return "", false
+	}
+	written := map[string][]string{}
+	writerFns := map[string]map[*ssa.Function]bool{}
+	for _, fn := range sortedFns(under) {
+		if !c.isRepoFn(fn) {
+			continue
+		}
+		instrsOf(fn, func(in ssa.Instruction) {
+			switch x := in.(type) {
+			case *ssa.Store:
+				if f, ok := fieldOf(x.Addr); ok {
+					written[f] = append(written[f], fnName(fn))
+					if writerFns[f] == nil {
+						writerFns[f] = map[*ssa.Function]bool{}
+					}
+					writerFns[f][fn] = true
+				}
+			case *ssa.MapUpdate:
+				if f, ok := fieldOf(x.Map); ok {
+					written[f] = append(written[f], fnName(fn))
+					if writerFns[f] == nil {
+						writerFns[f] = map[*ssa.Function]bool{}
+					}
+					writerFns[f][fn] = true
+				}
+			}
+		})
+	}
+	r.Floor(rule, "GenState fields written during search-instruction generation", len(written), 1)
+	reachesWriter := func(callee *ssa.Function, f string) bool {
+		if !under[callee] {
+			return false
+		}
+		rs := c.Reachable(callee)
+		for w := range writerFns[f] {
+			if rs[w] {
+				return true
+			}
+		}
+		return false
+	}
+	// command generators: functions outside `under` that call into the part of it that writes GenState
+	var gens []*ssa.Function
+	for _, fn := range c.SrcFuncs("bytecode") {
+		if under[fn] {
+			continue
+		}
+		calls := false
+		instrsOf(fn, func(in ssa.Instruction) {
+			if sc := staticCallee(in); sc != nil {
+				for f := range written {
+					if reachesWriter(sc, f) {
+						calls = true
+					}
+				}
+			}
+		})
+		if calls {
+			gens = append(gens, fn)
+		}
+	}
+	r.Floor(rule, "command generators calling generateSearchInstruction", len(gens), 3)
+	for _, g := range gens {
+		for _, f := range sortedKeys(written) {
+			ob := r.Ob(rule, fmt.Sprintf("%s resets GenState.%s before generating", fnName(g), f), c.pos(g.Pos()))
+			var resets []ssa.Instruction
+			instrsOf(g, func(in ssa.Instruction) {
+				if st, ok := in.(*ssa.Store); ok {
+					if fa, ok := st.Addr.(*ssa.FieldAddr); ok && types.Identical(deref(fa.X.Type()), genState) && fieldName(genState, fa.Field) == f && freshRef(st.Val, 0) {
+						resets = append(resets, in)
+					}
+				}
+			})
+			ok := true
+			why := ""
+			instrsOf(g, func(in ssa.Instruction) {
+				if sc := staticCallee(in); sc != nil && reachesWriter(sc, f) {
+					dom := false
+					for _, rs := range resets {
+						if instrDominates(rs, in) {
+							dom = true
+						}
+					}
+					if !dom {
+						ok = false
+						why = fmt.Sprintf("the call to %s [%s] is not dominated by a store of a fresh value into state.%s", fnName(sc), c.pos(in.Pos()), f)
+					}
+				}
+			})
+			if ok {
+				ob.OKnt(fmt.Sprintf("a fresh value is stored into state.%s before every call that generates search instructions (field written by %s)", f, strings.Join(uniq(written[f]), ", ")))
+			} else {
+				ob.Bad(fmt.Sprintf("GenState.%s is written while generating search instructions (%s) but %s does not re-create it first: %s — what one command records is seen by the next", f, strings.Join(uniq(written[f]), ", "), fnName(g), why))
+			}
+		}
+	}
 }
